@@ -140,27 +140,30 @@ def r3(ctx):
     mstart, mend = Call('Match::start', ism), Call('Match::end', ism)
     last = _var('last')
     loop = cfg.innermost_loop(b, nx[0].bb)
+    from rules.common import str_slice, lt_facts_at
+    same = lambda x, p: x is not None and match(core(x), p)
     for t in pushes:
         v = core(sym(b, t.args[1]))
         if not (v[0] == 'agg' and v[1] == 'adt'):
             continue
         variant = v[2].rsplit('::', 1)[-1]
-        sl = v[3][0]
-        rng = sl[2][1] if sl[0] == 'call' and len(sl[2]) == 2 else (sl[2] if sl[0] == 'index' else None)
-        base = sl[2][0] if sl[0] == 'call' else (sl[1] if sl[0] == 'index' else None)
-        at = [(core(tt), pol) for tt, pol, g in atoms_at(b, t.bb)]
-        if variant == 'Regular' and rng is not None and match(rng, ('agg', 'adt', Pred(lambda n: n.endswith('Range::Range')), (last, mstart))):
-            ok = any(pol is True and (match(tt, ('bin', 'Gt', mstart, last)) or match(tt, ('bin', 'Lt', last, mstart))) for tt, pol in at) and t.bb in loop.blocks
+        raw = peel(nosite(sym(b, t.args[1])))
+        sl = str_slice(raw[3][0] if raw[0] == 'agg' else v[3][0])
+        base, lo, hi = sl if sl is not None else (None, None, None)
+        lts = lt_facts_at(b, t.bb)
+        if variant == 'Regular' and sl is not None and same(lo, last) and same(hi, mstart):
+            ok = any(strict and match(x, last) and match(y, mstart) for x, y, strict in lts) and t.bb in loop.blocks
             kinds['between'] = (t, ok)
-        elif variant == 'Special' and rng is not None and match(rng, ('agg', 'adt', Pred(lambda n: n.endswith('Range::Range')), (mstart, mend))):
+        elif variant == 'Special' and sl is not None and same(lo, mstart) and same(hi, mend):
             kinds['match'] = (t, t.bb in loop.blocks and all(cfg.must_pass(b, nx[0].target, l, via_blocks=[t.bb]) for l in loop.latches))
-        elif variant == 'Regular' and rng is not None and match(rng, ('agg', 'adt', Pred(lambda n: n.endswith('RangeFrom::RangeFrom')), (last,))):
-            ok = any(pol is True and match(tt, ('bin', 'Lt', last, Call('str::len', ('arg', 2, ANY)))) for tt, pol in at) and t.bb not in loop.blocks
+        elif variant == 'Regular' and sl is not None and same(lo, last) and hi is None:
+            ok = any(strict and match(x, last) and match(y, Call('str::len', ('arg', 2, ANY))) for x, y, strict in lts) and t.bb not in loop.blocks
             kinds['tail'] = (t, ok)
         else:
             kinds['other:' + show_in(b, v)[:60]] = (t, False)
         if base is not None:
-            ctx.require(match(base, ('arg', 2, ANY)), b, 'slice-of-input', 'pieces are slices of the input text', None, t.span)
+            # `m.as_str()` is the matched part of the haystack the (single) find_iter below was given
+            ctx.require(match(base, ('arg', 2, ANY)) or (base[0] == 'haystack' and match(base[1], ism)), b, 'slice-of-input', 'pieces are slices of the input text', None, t.span)
     for k in ('between', 'match', 'tail'):
         ctx.require(k in kinds and kinds[k][1], b, 'piece|' + k, {'between': 'text between matches [last, m.start) is pushed when non-empty',
                                                                   'match': 'every match [m.start, m.end) is pushed as Special', 'tail': 'the tail [last, ..) is pushed when non-empty'}[k],
@@ -274,3 +277,33 @@ def r4(ctx):
 def r5(ctx):
     from rules import c04
     c04.r3(ctx)
+    # special-token ids start right behind the regular ids (byte tokenizer: 256): an offset of 255 makes the first special token
+    # share its id with the byte 0xFF, which de_tokenize pushes as a raw byte (R-C04-2 re-evaluated)
+    c04.r2(ctx)
+
+
+@rule('C01', 'R-C01-6', 'T11 SIBLING (matcher and lookup agree on what a special token is)',
+      'the special-token matcher built in new_base_tokenizer is an exact matcher of the escaped token strings: no regex option that '
+      'widens the match (case_insensitive, ignore_whitespace, swap_greed, unicode(false)) is set, because the vocabulary lookup that '
+      'follows a match (special_vocab.token_to_id) is exact -- a near-spelling like <PAD> would be cut out of the text and have no id')
+def r6(ctx):
+    b = ctx.body(T + 'BaseTokenizer::new_base_tokenizer')
+    made = [t for t in b.calls(r'Regex::new$|RegexBuilder::build$|RegexBuilder::new$')]
+    if not made:
+        raise AnchorMissing('construction of the special-token regex in new_base_tokenizer')
+    WIDEN = {'case_insensitive': 1, 'ignore_whitespace': 1, 'swap_greed': 1, 'unicode': 0, 'multi_line': None, 'dot_matches_new_line': None, 'crlf': None}
+    n = 0
+    for t in b.calls(r'RegexBuilder::\w+$'):
+        name = (t.callee_res() or '').rsplit('::', 1)[-1]
+        if name not in WIDEN or WIDEN[name] is None or len(t.args) < 2:
+            continue
+        n += 1
+        v = core(sym(b, t.args[1]))
+        off = v[0] == 'const' and len(v) > 2 and v[2] == 1 - WIDEN[name]
+        ctx.require(off, b, 'matcher-option|' + name, 'regex option %s is left at its exact-match setting' % name,
+                    'the special-token regex is built with %s(%s) (line %d): the matcher accepts strings the exact vocabulary lookup does not know '
+                    '(byte tokenizer: tokenize fails with "unknown special token"; character tokenizer: the characters of the near-spelling collapse into one unknown id)'
+                    % (name, show_in(b, v), t.span['line']), t.span)
+    esc = [t for t in b.calls(r'regex::escape$')] + [c for c in closures_in(ctx, b) for t in c.calls(r'regex::escape$')]
+    ctx.require(bool(esc), b, 'matcher-escaped', 'the alternatives of the special-token regex are the escaped token strings (regex::escape)',
+                'no regex::escape call on the way to the special-token regex: a token containing a regex metacharacter matches other text')
